@@ -56,6 +56,63 @@ class Report:
         self.notes.append(s)
 
 
+class Borrowed:
+    """Runs the rule module of another property inside this report: the clauses of that property which are also necessary
+    conditions of this one.  Rule id `C11.D1` becomes `<pid>.C11.D1`; failures named in `exempt` (key: original `rule|key`)
+    are recorded as exemptions with their reason instead."""
+
+    def __init__(self, rep, exempt=None, only=None):
+        self.rep = rep
+        self.exempt_keys = exempt or {}
+        self.only = only
+        self.pid = rep.pid
+        self.tier = rep.tier
+
+    def _r(self, rule):
+        return '%s.%s' % (self.rep.pid, rule)
+
+    def _skip(self, rule):
+        return self.only is not None and rule not in self.only
+
+    def rule(self, rid, text):
+        if not self._skip(rid):
+            self.rep.rule(self._r(rid), text)
+
+    def ok(self, rule, key, where=None, detail=None):
+        if not self._skip(rule):
+            self.rep.ok(self._r(rule), key, where, detail)
+
+    def fail(self, rule, key, where, detail):
+        if self._skip(rule):
+            return
+        fk = rule + '|' + key
+        if fk in self.exempt_keys:
+            self.rep.exempt(self._r(rule), key, self.exempt_keys[fk])
+        else:
+            self.rep.fail(self._r(rule), key, where, detail)
+
+    def check(self, cond, rule, key, where=None, detail=None, ok_detail=None):
+        if cond:
+            self.ok(rule, key, where, ok_detail)
+        else:
+            self.fail(rule, key, where, detail)
+        return cond
+
+    def exempt(self, rule, key, reason):
+        if not self._skip(rule):
+            self.rep.exempt(self._r(rule), key, reason)
+
+    def floor(self, rule, minimum):
+        if not self._skip(rule):
+            self.rep.floor(self._r(rule), minimum)
+
+    def count(self, rule):
+        return self.rep.count(self._r(rule))
+
+    def note(self, s):
+        self.rep.note(s)
+
+
 def full_key(o):
     return o['rule'] + '|' + o['key']
 
